@@ -32,7 +32,9 @@ type bodyScript struct {
 	Err         string // error text; "unexpected EOF" maps to io.ErrUnexpectedEOF
 	Stall       bool   // the body blocks after StallAt wire bytes until the request context ends
 	StallAt     int
-	StallBefore bool // block before the response headers until the request context ends
+	StallBefore bool          // block before the response headers until the request context ends
+	Gate        chan struct{} // non-nil: the round trip waits (after signalling Entered) until the harness closes it
+	Entered     chan struct{} // closed by the transport when the gated round trip has started
 }
 
 func (b *bodyScript) wire() []byte {
@@ -131,6 +133,12 @@ func (m *memTransport) RoundTrip(r *http.Request) (*http.Response, error) {
 		<-r.Context().Done()
 		return nil, r.Context().Err()
 	}
+	if bs.Gate != nil {
+		if bs.Entered != nil {
+			close(bs.Entered)
+		}
+		<-bs.Gate
+	}
 	st := bs.Status
 	if st == 0 {
 		st = 200
@@ -215,11 +223,12 @@ func (r *recWriter) body() []byte {
 
 // rig is one sidecar plus the in-memory target farm.
 type rig struct {
-	in  *sc.Instance
-	mt  *memTransport
-	dir string
-	srv *httptest.Server // real HTTP server in front of the proxy (lazy)
-	cli *http.Client
+	failReload bool // the next "Prometheus reload" callbacks fail while set
+	in         *sc.Instance
+	mt         *memTransport
+	dir        string
+	srv        *httptest.Server // real HTTP server in front of the proxy (lazy)
+	cli        *http.Client
 }
 
 const rigConfigTmpl = `global:
@@ -241,13 +250,25 @@ func newRig(dir, timeout, metricRelabel string) (*rig, error) {
 	return newRigHead(dir, timeout, metricRelabel, nil)
 }
 
+// build (re)creates the sidecar objects on the rig's store directory: the state a restarted pod has.
+func (r *rig) build(head func() (int64, error)) error {
+	in, err := sc.New(sc.Options{StoreDir: r.dir, HeadSeries: head, OnPromReload: func() error {
+		if r.failReload {
+			return errors.New("injected: prometheus reload failed")
+		}
+		return nil
+	}})
+	r.in = in
+	return err
+}
+
 func newRigHead(dir, timeout, metricRelabel string, head func() (int64, error)) (*rig, error) {
 	_ = os.MkdirAll(dir, 0755)
-	in, err := sc.New(sc.Options{StoreDir: dir, HeadSeries: head})
-	if err != nil {
+	r := &rig{dir: dir, mt: &memTransport{scripts: map[string]*bodyScript{}}}
+	if err := r.build(head); err != nil {
 		return nil, err
 	}
-	r := &rig{in: in, dir: dir, mt: &memTransport{scripts: map[string]*bodyScript{}}}
+	in := r.in
 	if err := in.PushConfig(fmt.Sprintf(rigConfigTmpl, timeout, metricRelabel)); err != nil {
 		return nil, err
 	}
